@@ -4,6 +4,7 @@ import (
 	"testing"
 
 	"verifharness/basecheck"
+	"verifharness/reqcheck"
 	"verifharness/j2tcheck"
 	"verifharness/pbt"
 )
@@ -22,3 +23,9 @@ func TestDeepNesting(t *testing.T) { pbt.Run(t, Deep) }
 var Base = pbt.Register(basecheck.ReqProp("TestRequestBase"))
 
 func TestRequestBase(t *testing.T) { pbt.Run(t, Base) }
+
+// The result of j2t does not depend on the capacity of the caller's buffer (documents of the requiredness table:
+// outputs larger than the document, null members, fill-ins).
+var Sweep = pbt.Register(reqcheck.SweepProp("TestCapacitySweep"))
+
+func TestCapacitySweep(t *testing.T) { pbt.Run(t, Sweep) }
